@@ -3,7 +3,7 @@
 // Enumerated space: a fixed list of feature grammars (grammars/*.tm, each minimal for one feature of
 // the Textmapper notation) x assignments of the 20 boolean Go options.
 //
-//	quick     per grammar: the default configuration + a pairwise-complete covering array over the
+//	quick     per grammar: the default configuration, all 12 parser options on, and a pairwise-complete covering array over the
 //	          options that are not pinned by the grammar (every pair of options takes all four value
 //	          combinations in some row in which the options they depend on are enabled), built greedily
 //	          and deterministically;
@@ -280,6 +280,13 @@ func coveringRowsUncached(g *featGrammar) (rows []uint32, ntargets int) {
 	def := g.effective(defaultMask())
 	rows = append(rows, def)
 	mark(def)
+	// second row: all 12 parser options on (the corner where every guard of the templates that
+	// is a conjunction of options is taken), the other options at their defaults
+	allOn := g.effective(defaultMask() | (uint32(1)<<numParserOptions - 1))
+	if allOn != def {
+		rows = append(rows, allOn)
+		mark(allOn)
+	}
 	// One candidate row: seeded with target seed (and everything it depends on enabled), the other
 	// free options visited in the rotation of free that starts at position rot, each taking the
 	// value that satisfies more uncovered targets among the options fixed so far (dependencies not
@@ -1094,7 +1101,7 @@ func run(c *core.Ctx) {
 		fmt.Println("cases", len(p.cases), "quick", p.quickN, "targets", p.targets)
 		os.Exit(0)
 	}
-	c.Rule("feature grammars (cmd/c17/grammars/*.tm, one feature each) x option assignments: per grammar the default configuration + a greedy pairwise-complete covering array over the 20 boolean options (every pair of free options in all 4 value combinations, in a row where the options they depend on are on); thorough adds every subset of the 12 parser options per grammar, by distance from the all-off / all-on corners. " +
+	c.Rule("feature grammars (cmd/c17/grammars/*.tm, one feature each) x option assignments: per grammar the default configuration, the configuration with all 12 parser options on and a greedy pairwise-complete covering array over the 20 boolean options (every pair of free options in all 4 value combinations, in a row where the options they depend on are on); thorough adds every subset of the 12 parser options per grammar, by distance from the all-off / all-on corners. " +
 		"A case is distinct by (grammar, effective option assignment); non-trivial = accepted by the compiler and generating a file set (by content, package name normalised) not seen before, i.e. a distinct set of packages handed to go build")
 	c.Assume("log.Fatal* is observed through a log output hook that panics with the caller's identity (the process would exit right after writing the message); other worker deaths and hangs are detected by the shard protocol")
 	c.Assume("`go build ./...` of " + goVersion() + " decides 'builds'; two cases whose generated files are byte-identical after replacing the package name build alike, so one representative per distinct output is built")
@@ -1123,7 +1130,7 @@ func run(c *core.Ctx) {
 	}
 	info := make([]genInfo, len(p.cases))
 	featSeen := map[string]int{}
-	genDeadline := c.Deadline.Add(-c.Deadline.Sub(c.Start) / 4) // leave a quarter of the budget to building
+	genDeadline := c.Start.Add(c.Deadline.Sub(c.Start) * 2 / 5) // generation may use 40% of the budget, building gets the rest
 	genCapped := -1
 	c.RunShards(core.ShardOpts{
 		N:    16,
